@@ -30,6 +30,29 @@ def handle (args : List String) (_impl : List String) : String :=
     | _, _, _, _ => "bad-op"
   | ["inside", what, pt, n] =>
     if n = "0" then s!"bad projection: a point of the mesh ({what} {pt}) has an empty row (no weight at all)" else "ok"
+  -- u qform <n> <S row-major> <lambda> <b> <Q row-major> =>      Q = Λ p(S) Λ  (2^-36 of the largest entry)
+  | ["qform", n, sv, lam, b, qv] =>
+    match LinAlg.parseMat? n n sv, parseQs? lam, parseQs? b, LinAlg.parseMat? n n qv, n.toNat? with
+    | some S, some lam, some b, some Qm, some nn =>
+      if lam.length ≠ nn ∨ b.isEmpty then "bad-op" else
+      let E := precisionExplicit nn S lam b
+      let scale := maxQ 1 E.maxAbs
+      -- S = D^{-1/2} G D^{-1/2} is computed in floating point: symmetric up to rounding
+      let sscale := maxQ 1 S.maxAbs
+      if !(S.close (pow2 (-40) * sscale) S.transpose) then "bad precision operator: the shift operator S is not symmetric (beyond 2^-40 of its largest entry)"
+      else if E.close (pow2 (-36) * scale) Qm then "ok"
+      else "bad precision operator: the assembled matrix Q differs from Lambda p(S) Lambda recomputed from the exported S, Lambda and coefficients"
+    | _, _, _, _, _ => "bad-op"
+  -- u qfree <n> <S> <lambda> <b> <v> => <Q v returned by the matrix-free operator>
+  | ["qfree", n, sv, lam, b, v, out] =>
+    match LinAlg.parseMat? n n sv, parseQs? lam, parseQs? b, parseQs? v, parseQs? out, n.toNat? with
+    | some S, some lam, some b, some v, some out, some nn =>
+      if lam.length ≠ nn ∨ v.length ≠ nn ∨ out.length ≠ nn then "bad-op" else
+      let m := precisionFree nn S lam b v
+      let scale := maxQ 1 (LinAlg.vmaxAbs m)
+      if LinAlg.vclose (pow2 (-36) * scale) m out then "ok"
+      else "bad precision operator: the matrix-free evaluation differs from Lambda Horner(p, S)(Lambda v)"
+    | _, _, _, _, _, _ => "bad-op"
   | ["outside", n] => if n = "0" then "ok" else s!"bad projection: a point outside the mesh has {n} non-zero weights"
   | _ => "bad-op"
 
